@@ -419,7 +419,7 @@ def rule_fatlen(ctx, rep):
                         len_e = _nobb(symx.normalize_calls(F, symx.expr(F, cfg.Body(cb), t3["args"][len_e[1] - 1]), _priv))
                         b_site = cb
                 if not ok:
-                    owner = F.body(b_site["owner"]) if b_site["kind"] == "Closure" else b_site
+                    owner = (F.body(b_site.get("owner")) or b_site) if b_site["kind"] == "Closure" else b_site
                     OB = cfg.Body(owner)
                     sized_with = []
                     for bj, t2 in OB.calls():
@@ -648,6 +648,7 @@ def _dealloc_free_type(F, E, b):
 
 def run(ctx, rep):
     rule_repr(ctx, rep)
+    balance.rule_zst_div(ctx, rep)  # "any size ... including zero-sized": no division by a payload size that may be zero
     rule_layout(ctx, rep)
     rule_data_offset(ctx, rep)
     rule_retype(ctx, rep)
@@ -682,6 +683,7 @@ def main(argv):
             "R-FREE-TYPE: both free sites build the Box from the handle's own stored pointer. R-NULL: null-checked allocation. Evaluation of an "
             "extracted expression, not execution of the crate. Not decided: what the allocator does with the layout."
             " Round thirteen/fourteen: R-GUARD as a premise (a replacement behind with_arc_mut's transient reaches the handle on both exits); the block type may be read off an allocation helper's return type; bitwise NOT on integers is evaluated."
+            ' Round fifteen: R-ZST-DIV (no division by a generic payload size without a non-zero test); integer methods (`wrapping_neg` ...) are evaluated.'
         ),
         rule_text="programs = (allocation site, root caller) pairs and re-typing casts; each is evaluated on every cell of the shape matrix; a disagreement is reported with a concrete (H, T, len) witness",
         trusted_base=["std's documented Layout::extend/array/pad_to_align arithmetic and the repr(C) layout algorithm (re-implemented in analysis/layout.py)", "rustc MIR def-use", "Box<T> frees with Layout::for_value of its pointee"],
